@@ -242,13 +242,13 @@ int main(int argc, char** argv) {
   struct Plan { int n_extra; int bound; bool at; };
   std::vector<Plan> plans;
   if (!c.thorough()) plans = {{0, 99, false}, {0, 99, true}, {1, 99, false}, {1, 99, true}, {2, 4, false}, {2, 3, true}, {3, 3, false}};
-  else plans = {{0, 99, false}, {0, 99, true}, {1, 99, false}, {1, 99, true}, {2, 99, false}, {2, 5, true}, {3, 5, false}, {3, 4, true}, {4, 3, false}};
+  else plans = {{0, 99, false}, {0, 99, true}, {1, 99, false}, {1, 99, true}, {2, 5, false}, {2, 5, true}, {3, 4, false}, {3, 4, true}, {4, 3, false}};
   std::string bounds;
   for (auto& pl : plans) {
     auto st = xplor::explore_deviations(pl.bound, [&](xplor::Chooser& ch) -> bool {
       Case cs = draw(ch, pl.n_extra, pl.at);
       if (!c.mine(idx++)) return true;
-      if ((idx & 255) == 0 && c.out_of_time()) return false;
+      if (c.tick(16)) return false;
       c.n("evaluations")++;
       bool ok = run_case(cs);
       if (!ok) report(cs, "case");
